@@ -249,6 +249,92 @@ def real_trio_cases():
     return out
 
 
+def _api_history(seed):
+    """the public surface (with einx.backend.get(..):, backend=, calls) in a process of its own: a framework whose backend factory
+    fails is registered; nested with-blocks are left normally or through an exception; after every step the innermost active
+    block decides, a selected failed backend raises ImportBackendError whatever the arguments are, everything else stays usable"""
+    import random
+    import einx
+    from einx._src.frontend.backend import registry
+    rng = random.Random(seed)
+    out = []
+    mod = f"brokenfw{seed}"
+    sys.modules[mod] = types.ModuleType(mod)
+
+    def failing_factory():
+        raise RuntimeError(mod + " is too old")
+    registry.register_on_import(mod, mod, failing_factory)
+
+    class Foreign:                          # a tensor of the broken framework
+        __module__ = mod
+
+        def __init__(self, shape):
+            self.shape = shape
+    x = np.arange(6, dtype=np.float64).reshape(2, 3)
+    healthy = ["numpy", "numpy.numpylike", "numpy.einsum"]
+    stack = []                              # names of the active blocks, innermost last (the specification)
+
+    class Boom(Exception):
+        pass
+
+    def check(where):
+        want = stack[-1] if stack else "numpy"
+        try:
+            got = einx.backend.get(None, [x]).name
+        except BaseException as e:  # noqa: BLE001
+            got = "raises " + type(e).__name__
+        if got != want:
+            out.append(({"kind": "api_innermost_block_not_used", "after": where}, {"seed": seed, "stack": list(stack), "selected": got, "expected": want}))
+        try:
+            r = einx.sum("a [b]", x)
+            ok = np.allclose(np.asarray(r), x.sum(axis=1))
+        except BaseException as e:  # noqa: BLE001
+            ok = "raises " + type(e).__name__
+        if ok is not True:
+            out.append(({"kind": "api_call_fails_under_healthy_backends", "after": where}, {"seed": seed, "stack": list(stack), "outcome": str(ok)}))
+
+    def body(depth):
+        for _ in range(rng.randint(1, 3)):
+            r = rng.random()
+            if r < 0.45 and depth < 3:
+                name = rng.choice(healthy)
+                leave = rng.choice(["normally", "normally", "by_exception"])
+                try:
+                    with einx.backend.get(name):
+                        stack.append(name)
+                        check("enter")
+                        body(depth + 1)
+                        if leave == "by_exception":
+                            stack.pop()
+                            raise Boom()
+                        stack.pop()
+                except Boom:
+                    pass
+                check("leave_" + leave)
+            elif r < 0.75:
+                # the failed backend is selected explicitly: by name or by object, for arguments of any kind
+                arg = rng.choice([x, Foreign((2, 3)), 1.5, [[1.0, 2.0, 3.0]], "text"])
+                how = rng.choice(["name", "object"])
+                try:
+                    b = mod if how == "name" else einx.backend.get(mod)
+                    einx.sum("a [b]", arg, backend=b)
+                    got = "returns"
+                except BaseException as e:  # noqa: BLE001
+                    got = type(e).__name__
+                if got != "ImportBackendError":
+                    out.append(({"kind": "api_failed_backend_selected", "argument": type(arg).__name__, "outcome": got, "by": how}, {"seed": seed, "stack": list(stack)}))
+                check("failed_backend_call")
+            else:
+                check("lookup")
+    try:
+        body(0)
+        if len(registry.state.use_stack) != 0:
+            out.append(({"kind": "api_with_stack_not_empty_at_the_end"}, {"seed": seed, "left": [b.name for b in registry.state.use_stack]}))
+    except BaseException as e:  # noqa: BLE001
+        out.append(({"kind": "api_history_crashes", "exc": type(e).__name__}, {"seed": seed, "detail": str(e)[:300], "stack": list(stack)}))
+    return out
+
+
 def run(ctx):
     import einx  # noqa: F401
     n = 400 if ctx.tier == "quick" else 20000
@@ -277,6 +363,10 @@ def run(ctx):
                 ctx.report({"kind": "real_backend_selection"}, {"arg": arg, "got": got, "expected": exp})
     except BaseException as e:  # noqa: BLE001
         ctx.report({"kind": "real_backend_selection_raises", "exc": type(e).__name__}, {"detail": str(e)[:300]})
+    api_seeds = [ctx.rng.randrange(10 ** 6) for _ in range(40 if ctx.tier == "quick" else 2000)]
+    for viol in common.pmap(_api_history, api_seeds):
+        for tags, payload in viol:
+            ctx.report(tags, payload)
     for h in hs[:3]:
         ctx.sample({"mods": h["mods"], "ops": h["ops"][:12]})
     ctx.coverage.update({
@@ -284,7 +374,7 @@ def run(ctx):
         "rule": "random registry histories (1-3 synthetic frameworks beside numpy, 1-3 backends each, priorities with ties, eager/lazy, "
                 "failing factories, imports, nested with-blocks, lookups by object/name/tensors/invalid argument); evaluations = lookups compared; "
                 "distinct_nontrivial = distinct operation sequences",
-        "input_distribution": {"histories": len(hs), "lookup_outcomes": outcomes},
+        "input_distribution": {"histories": len(hs), "lookup_outcomes": outcomes, "api_level_histories": len(api_seeds)},
     })
 
 
